@@ -46,7 +46,7 @@ theorem C10_callback_one_leaf (P : Params K) (tree : Tree K V) (progs : List (Li
     (hp : th.park = .yielded (.upCallback key f leaf arg)) : th.held = [.node leaf] := by
   obtain ⟨hh, hpre⟩ := reachable_ok _ c (init_ok P tree progs) hr hd th hth
   rw [hp] at hh hpre
-  have hc : cursorLocks th.cursor = [] := hpre
+  have hc : cursorLocks th.cursor = [] := hpre.1
   rw [hc] at hh
   exact List.perm_singleton.mp (by simpa [parkHeld, kontHeld] using hh)
 
